@@ -58,12 +58,81 @@ def tfFun (name : String) : Elem → Elem :=
   | "dup" => fun e => e.withChildren (e.children ++ e.children)
   | _ => id
 
+/-- `isinstance(element, documents.Table)`: the target test of `transforms.element_of_type(documents.Table, f)` -/
+def isTableE : Elem → Bool
+  | .table _ _ _ => true
+  | _ => false
+
+def targetOfKind (kind : String) : Elem → Bool :=
+  if kind == "run" then isRun else if kind == "table" then isTableE else isParagraph
+
+/-- "restyle by predicate", given as data so that both sides implement the same function: the element is restyled
+    (`element.copy(style_id=…, style_name=…)`, each optional) when it has style fields (paragraph, run, table) and
+    satisfies every stated condition (number of children modulo 2, `style_id ==`, `style_name ==`). -/
+structure Restyle where
+  parity : Option Nat := none
+  idIs : Option (Option Str) := none
+  nameIs : Option (Option Str) := none
+  setId : Option (Option Str) := none
+  setName : Option (Option Str) := none
+
+/-- absent key: `none`; JSON null: `some none`; a string: `some (some s)` -/
+def getOOS (j : Json) (k : String) : Option (Option Str) :=
+  match j.getObjVal? k with
+  | .ok Json.null => some none
+  | .ok (Json.str s) => some (some s.toList)
+  | _ => none
+
+def restyleOfJson (j : Json) : Restyle :=
+  { parity := match j.getObjVal? "parity" with
+      | .ok v => (match v.getNat? with | .ok n => some n | _ => none)
+      | _ => none,
+    idIs := getOOS j "idIs", nameIs := getOOS j "nameIs", setId := getOOS j "setId", setName := getOOS j "setName" }
+
+def styleOfElem : Elem → Option (Option Str × Option Str)
+  | .paragraph p _ => some (p.styleId, p.styleName)
+  | .run r _ => some (r.styleId, r.styleName)
+  | .table i n _ => some (i, n)
+  | _ => none
+
+def setStyleOfElem (i n : Option Str) : Elem → Elem
+  | .paragraph p cs => .paragraph { p with styleId := i, styleName := n } cs
+  | .run r cs => .run { r with styleId := i, styleName := n } cs
+  | .table _ _ cs => .table i n cs
+  | e => e
+
+def Restyle.apply (r : Restyle) (e : Elem) : Elem :=
+  match styleOfElem e with
+  | none => e
+  | some (i, n) =>
+    let okParity := match r.parity with
+      | some k => e.children.length % 2 == k % 2
+      | none => true
+    let okId := match r.idIs with
+      | some v => i == v
+      | none => true
+    let okName := match r.nameIs with
+      | some v => n == v
+      | none => true
+    if okParity && okId && okName then setStyleOfElem (r.setId.getD i) (r.setName.getD n) e else e
+
+/-- the element function of a request: the data-described restyle when a `restyle` object is given, the named family otherwise -/
+def elemFunOfJson (j : Json) : Elem → Elem :=
+  match j.getObjVal? "restyle" with
+  | .ok r => (restyleOfJson r).apply
+  | .error _ => tfFun ((j.getObjValAs? String "f").toOption.getD "id")
+
+/-- `transform_document=` of an `api` request: `{"transform": {"kind": paragraph|run|table, "f": name | "restyle": {...}}}`; absent = none -/
+def transformOfJson (j : Json) : Document → Document :=
+  match j.getObjVal? "transform" with
+  | .ok t => transformDoc (targetOfKind ((t.getObjValAs? String "kind").toOption.getD "paragraph")) (elemFunOfJson t)
+  | .error _ => id
+
 def handleTransform (j : Json) : Except String Json := do
   let d ← docOfJson (← j.getObjVal? "doc")
   let kind ← j.getObjValAs? String "kind"
-  let fname ← j.getObjValAs? String "f"
-  let isT := if kind == "run" then isRun else isParagraph
-  let f := tfFun fname
+  let isT := targetOfKind kind
+  let f := elemFunOfJson j
   -- the logging monad: StateM (List Elem)
   let logged : Elem → StateM (List Elem) Elem := fun e => do
     modify (· ++ [e])
